@@ -4,6 +4,7 @@ import (
 	"runtime"
 
 	"github.com/goatcms/goatcore/workers/jobsync"
+	"github.com/goatcms/goatcore/workers/verifhook"
 )
 
 // Consumer is object represent single loop consumer task
@@ -23,8 +24,10 @@ func (consumer *Consumer) Loop() {
 		// read the step before the queues: if the close step is already announced every
 		// producer has finished, so queues seen empty afterwards stay empty
 		closed := consumer.lifecycle.Step() == StepClose
+		verifhook.At("fsloop.consumer.between")
 		if len(consumer.loopData.chans.dirChan) == 0 &&
 			len(consumer.loopData.chans.fileChan) == 0 {
+			verifhook.At("fsloop.consumer.gap")
 			if closed {
 				return
 			}
